@@ -34,9 +34,11 @@ package container
 //@ spec func RegInv(r SingletonComponentRegistry) bool = r != nil && r.RepInv && forall(n, string, implies(r.IC[n], !r.L1Dom[n]), r.IC[n]) && forall(n, string, implies(r.L3Dom[n], r.L3[n] != nil && r.L3[n].Role == RoleEarlyRef() && r.L3[n].ForName == n && r.L3[n].Reg == r), r.L3Dom[n])
 
 // Two-state rely: what every registry operation and every creating callback guarantees to the frames above it.
-// R1 published entries are immutable; R2 an early reference is replaced only by publication;
-// R4 names that were in creation stay in creation, unpublished, and keep an answer (L2 or L3) if they had one.
-//@ spec func RegRely(r SingletonComponentRegistry) bool = forall(n, string, implies(old(r.L1Dom[n]), r.L1Dom[n] && r.L1[n] == old(r.L1[n])), r.L1Dom[n]) && forall(n, string, implies(old(r.L2Dom[n]), (r.L2Dom[n] && r.L2[n] == old(r.L2[n])) || r.L1Dom[n]), r.L2Dom[n]) && forall(n, string, implies(old(r.IC[n]), r.IC[n] && !r.L1Dom[n] && implies(old(r.L2Dom[n]) || old(r.L3Dom[n]), r.L2Dom[n] || r.L3Dom[n])), r.IC[n])
+// R1 published entries are immutable; R4 a name that was in creation stays in creation and unpublished, its early
+// reference (if it had one) is still the same object, and a pending early-reference factory is either still pending
+// or has been promoted. Only the frame that owns a name (the call that marked it) ends its creation, by publishing
+// it or, when creation fails, by discarding every trace of the attempt.
+//@ spec func RegRely(r SingletonComponentRegistry) bool = forall(n, string, implies(old(r.L1Dom[n]), r.L1Dom[n] && r.L1[n] == old(r.L1[n])), r.L1Dom[n]) && forall(n, string, implies(old(r.IC[n]), r.IC[n] && !r.L1Dom[n] && implies(old(r.L2Dom[n]), r.L2Dom[n] && r.L2[n] == old(r.L2[n])) && implies(old(r.L3Dom[n]), r.L2Dom[n] || r.L3Dom[n])), r.IC[n])
 
 //@ spec func CachesUnchanged(r SingletonComponentRegistry) bool = r.L1Dom == old(r.L1Dom) && r.L1 == old(r.L1) && r.L2Dom == old(r.L2Dom) && r.L2 == old(r.L2) && r.L3Dom == old(r.L3Dom) && r.L3 == old(r.L3) && r.IC == old(r.IC)
 
